@@ -232,7 +232,7 @@ func c14HostsOf(family int) []string {
 		w = strings.ReplaceAll(w, "{-s}", "yy")
 		for _, f := range []string{w, strings.ToUpper(w), w + ":80", w + ":", w + ":8x", "[" + w + "]", "[" + w + "]:80", "[" + w + "]:",
 			"[" + w, w + "]", w + "]:80", "[" + w + ":80", // a bracket without its partner is part of the name
-			strings.ToUpper(w[:1]) + w[1:], strings.ToUpper(w[:len(w)/2]) + w[len(w)/2:]} { // capitals in part of the name only (incl. non-ASCII ones)
+			strings.ToUpper(w[:1]) + w[1:], strings.ReplaceAll(w, "\u00e9", "\u00c9")} { // capitals in part of the name only: the first letter, the non-ASCII letter
 			add(f)
 		}
 		for _, e := range explore.Edit1(w, []byte{'a', '.', ':', 'x'}) {
